@@ -15,7 +15,7 @@ RULE = ("source graphs (universe specs of all four classes carrying atom and bon
         "stereo changes of every kind) x every derivation (copy, copy-construction incl. cross-class, relabel_atoms(copy=True), "
         "subgraph, compose of one and of two graphs, enantiomer, reverse_reaction, reactant, product, JSON round trip) x every "
         "single follow-up edit (every mutator on every atom / bond / attribute key / descriptor slot / change slot present, plus "
-        "additions, in-place relabellings, and the in-place change of a list / nested dict stored as attribute value), applied once to the derived graph and once to the source: the normalised snapshot of the untouched side must "
+        "additions, in-place relabellings, and the in-place change of a list / nested dict / list inside a tuple stored as attribute value), applied once to the derived graph and once to the source: the normalised snapshot of the untouched side must "
         "be identical before and after.  distinct = (source, derivation, edit, side) executions")
 ASSUMPTIONS = ["sharing of immutable descriptor objects is allowed; only behaviour through the public API decides",
                "an edit that raises on its target is skipped (counted)"]
@@ -251,6 +251,9 @@ def run_item(item):
                     try:
                         src = U.build(m)
                         src.set_atom_attribute(a0, "tags", [1, 2])
+                        if len(ids) > 1:
+                            # a tuple (immutable itself) that holds a mutable member, as the only free attribute of its atom
+                            src.set_atom_attribute(ids[-1], "scan", ("angstrom", [0.1, 0.2]))
                         if b0:
                             src.set_bond_attribute(*b0, "path", [0.5, {"k": 1}])
                         der = derive(src, dname)
@@ -262,6 +265,8 @@ def run_item(item):
                         r = []
                         if a0 in g.atoms:
                             r.append(repr(g.get_atom_attribute(a0, "tags")))
+                        if len(ids) > 1 and ids[-1] in g.atoms:
+                            r.append(repr(g.get_atom_attribute(ids[-1], "scan")))
                         if b0 and g.has_bond(*b0):
                             r.append(repr(g.get_bond_attribute(*b0, "path")))
                         return r
@@ -269,6 +274,8 @@ def run_item(item):
                         before = vals(other)
                         if a0 in target.atoms and target.get_atom_attribute(a0, "tags") is not None:
                             target.get_atom_attribute(a0, "tags").append(7)
+                        if len(ids) > 1 and ids[-1] in target.atoms and target.get_atom_attribute(ids[-1], "scan") is not None:
+                            target.get_atom_attribute(ids[-1], "scan")[1].append(0.3)
                         if b0 and target.has_bond(*b0) and target.get_bond_attribute(*b0, "path") is not None:
                             target.get_bond_attribute(*b0, "path")[1]["k"] = 2
                         after = vals(other)
